@@ -1265,6 +1265,15 @@ where
             TsType::TsOptionalType(TsOptionalType { type_ann, .. }) => {
                 runtime_types.extend(self.infer_runtime_type(type_ann));
             }
+            // a rest element of an indexed tuple: `[A, ...B[]][1]` is `B`
+            TsType::TsRestType(TsRestType { type_ann, .. }) => match &**type_ann {
+                TsType::TsArrayType(TsArrayType { elem_type, .. }) => {
+                    runtime_types.extend(self.infer_runtime_type(elem_type));
+                }
+                _ => {
+                    runtime_types.insert(Some(Atom::from(ANY_TYPE)));
+                }
+            },
             _ => {
                 runtime_types.insert(Some(atom!("Object")));
             }
